@@ -18,6 +18,16 @@ CHECKS = {
              "are excluded from comparison and covered by isolated witnesses (known findings).",
         technique="TLC-enumerated type constructions (GoTypes.tla) realised with reflect; differential encoding against encoding/json with structural minimisation",
         engine="GoTypes", design="8/C01"),
+    "C02": dict(
+        level="exploration",
+        text="Destination types are the constructions TLC enumerates from GoTypes.tla; documents are encoding/json's encodings of "
+             "generated values plus every single-node mutation (24 replacement values incl. integer/float range boundaries, unknown, "
+             "duplicate and case-changed members, surplus and missing elements), decoded into zeroed and pre-populated destinations "
+             "with Unmarshal, Decoder, UseNumber and DisallowUnknownFields. go-json and encoding/json must agree on error/no-error "
+             "and, on success, be deeply equal. Divergences are reduced jointly over document and type.",
+        note="exploration: encoding/json is the trusted oracle; only valid documents are used (C05 covers invalid ones).",
+        technique="TLC-enumerated destination types; differential decoding of derived and mutated documents against encoding/json with joint document/type reduction",
+        engine="GoTypes", design="8/C02"),
     "C03": dict(
         level="model_checking",
         text="Every byte sequence any of 7 entry point / option sets returns with err == nil, for every TLC-enumerated type "
@@ -169,9 +179,9 @@ def main():
 
 NA = {}
 HOOK_COMMITS = ["cb16685"]
-FIX_COMMITS = ["3ba2124", "35e540e", "5d9c0a9", "182cdbb", "c177d40", "4cc9b5c", "e04537c"]
+FIX_COMMITS = ["3ba2124", "35e540e", "5d9c0a9", "182cdbb", "c177d40", "4cc9b5c", "e04537c", "f4cd737"]
 ENGINES = [
-    dict(name="GoTypes", path="specs/GoTypes.tla", serves_properties=["C01", "C03", "C04", "C13"],
+    dict(name="GoTypes", path="specs/GoTypes.tla", serves_properties=["C01", "C02", "C03", "C04", "C13"],
          kind_free_text="TLA+ type-construction state machine; TLC enumerates and exports every construction up to a bound"),
     dict(name="StrCodec", path="specs/StrCodec.tla", serves_properties=["C17"],
          kind_free_text="TLA+ token-level model of JSON string escaping/unescaping; TLC laws + table/case export"),
